@@ -383,3 +383,63 @@ def positional_self_calls(ci, fi):
             fi.module.parents[ch] = parent
     fi.module.parents[node] = fi.module.parents.get(fi.node)
     return g
+
+
+def view_swaps(fi):
+    """Tuple assignments that exchange ROWS of a NumPy array of rank >= 2 through views:  a[i], a[j] = a[j], a[i].
+    The right-hand side is evaluated to two views of `a` (basic indexing of a rank >= 2 array does not copy); the first store overwrites row
+    i, and the second store then copies from the view of row i, which already holds the new content: both rows end up equal to the old row
+    j.  (For a list, or for scalar elements of a rank-1 array, the same statement is a correct swap.)  Reported only when every definition of
+    `a` in the function is recognisably an array of rank >= 2.  -> [(lineno, text, array name)]"""
+    import ast as _ast
+    from ..engine.model import walk_own as _walk_own, src as _src
+    defs = {}
+    for n in _walk_own(fi.node):
+        if isinstance(n, _ast.Assign) and len(n.targets) == 1 and isinstance(n.targets[0], _ast.Name):
+            defs.setdefault(n.targets[0].id, []).append(n.value)
+        elif isinstance(n, (_ast.AugAssign, _ast.For)) and isinstance(n.target, _ast.Name):
+            defs.setdefault(n.target.id, []).append(None)
+
+    def rank2(e):
+        if not isinstance(e, _ast.Call):
+            return False
+        fn = _src(e.func)
+        if fn in ('np.array', 'numpy.array', 'np.asarray', 'numpy.asarray') and e.args and isinstance(e.args[0], (_ast.List, _ast.Tuple)) and e.args[0].elts \
+                and all(isinstance(x, (_ast.List, _ast.Tuple)) for x in e.args[0].elts):
+            return True
+        if fn in ('np.zeros', 'np.ones', 'np.empty', 'np.full', 'numpy.zeros', 'numpy.ones', 'numpy.empty', 'numpy.full') and e.args \
+                and isinstance(e.args[0], (_ast.Tuple, _ast.List)) and len(e.args[0].elts) >= 2:
+            return True
+        if fn in ('np.vstack', 'np.column_stack', 'np.eye', 'np.identity', 'numpy.vstack', 'numpy.column_stack', 'numpy.eye', 'numpy.identity'):
+            return True
+        if isinstance(e.func, _ast.Attribute) and e.func.attr == 'reshape' and e.args:
+            sh = e.args[0] if len(e.args) == 1 else _ast.Tuple(elts=list(e.args))
+            return isinstance(sh, (_ast.Tuple, _ast.List)) and len(sh.elts) >= 2
+        if isinstance(e.func, _ast.Attribute) and e.func.attr == 'copy' and not e.args:
+            v = e.func.value
+            return isinstance(v, _ast.Name) and is_rank2(v.id)
+        return False
+
+    def is_rank2(name, seen=()):
+        ds = defs.get(name)
+        return bool(ds) and name not in seen and all(d is not None and rank2(d) for d in ds)
+    out = []
+    for n in _walk_own(fi.node):
+        if not (isinstance(n, _ast.Assign) and len(n.targets) == 1 and isinstance(n.targets[0], (_ast.Tuple, _ast.List))
+                and isinstance(n.value, (_ast.Tuple, _ast.List)) and len(n.targets[0].elts) == len(n.value.elts) >= 2):
+            continue
+        tg, vs = n.targets[0].elts, n.value.elts
+        for k, t in enumerate(tg):
+            if not (isinstance(t, _ast.Subscript) and isinstance(t.value, _ast.Name) and not isinstance(t.slice, (_ast.Tuple,)) and is_rank2(t.value.id)):
+                continue
+            # a later right-hand element reads, as a view, the row an earlier target stores into
+            for j in range(k + 1, len(vs)):
+                v = vs[j]
+                if isinstance(v, _ast.Subscript) and isinstance(v.value, _ast.Name) and v.value.id == t.value.id and _src(v.slice) == _src(t.slice) \
+                        and not isinstance(v.slice, _ast.Tuple):
+                    out.append((n.lineno, _src(n)[:90], t.value.id))
+                    break
+            else:
+                continue
+            break
+    return out
